@@ -155,7 +155,7 @@ def front_slices(tier):
     sl.append(dict(name='front/item/mod-2', mode='front-item', what='mod', layout=['ra', 'rb', 'rc'] if big else ['ra', 'rb'], validate=10))
     sl.append(dict(name='front/item/impl-1', mode='front-item', what='impl', layout=['a'], validate=6))
     sl.append(dict(name='front/item/impl-2', mode='front-item', what='impl', layout=['ra', 'rb', 'rc'] if big else ['ra', 'rb'], validate=6))
-    sl.append(dict(name='front/item/fn', mode='front-item', what='fn', layout=['a'], validate=8))
+    sl.append(dict(name='front/item/fn', mode='front-item', what='fn', layout=['sa'], validate=8))
     if big:
         # arbitrary token lists (lazily chosen structured tokens, texts as solver strings); legality decided by the reference grammar
         sl.append(dict(name='front/item/mod-tokens', mode='front-item', what='mod', max_tokens=6, validate=10, time_budget=1500))
